@@ -29,7 +29,7 @@ ASSUMPTIONS = [
     "grids inside the C13 domain (>= 2 states per half-axis); n-d grids of at most 15 points per axis (2-d) / 9 (3-d)",
 ]
 REQUIRED_COUNTERS = ["rate_comparisons_1d", "intensity_checks", "tiling_checks", "nd_cell_comparisons", "nd_row_sums",
-                     "grid_init_postconditions", "infinite_variation_copula_chains"]
+                     "grid_init_postconditions", "infinite_variation_copula_chains", "second_model_on_the_same_grid"]
 MIN_NONTRIVIAL = {"quick": 60, "thorough": 400}
 THOROUGH_ROUNDS = 5      # the thorough tier runs the generators this many times (different seeds)
 SHARD_TIMEOUT = {"quick": 900, "thorough": 7200}
@@ -58,9 +58,10 @@ def gen_cases(tier, seed):
     # copulas
     nnd = 14 if not thorough else 120
     kinds = ["clayton", "independent", "dependent", "clayton"]
+    n2 = n3 = 0
     for j in range(nnd):
         dim = 2 if j % 3 else 3
-        kind = kinds[j % 4]
+        kind = str(rng.choice(kinds))      # (random: a modulo rule ties the kind to the dimension and grid cycles)
         fams = [str(rng.choice(["HEM", "MERTON", "VG", "CGMY"])) for _ in range(dim)]
         cm = W.gen_copula_model_spec(rng, dim=dim, kind=kind, families=fams)
         # infinite-variation models in dimension 2 (every third 2-d case); the 3-d constructor is too slow for them
@@ -70,9 +71,11 @@ def gen_cases(tier, seed):
                 ms["params"]["mu_j"] = min(ms["params"]["mu_j"], 0.05)
                 ms["params"]["sigma_j"] = max(ms["params"]["sigma_j"], 0.08)
         if dim == 2:
-            ctor = ["fixed", "uniform", "geometric", "geometric_bounds", "credit", "credit_asym"][j % 6]
+            ctor = ["fixed", "uniform", "geometric", "geometric_bounds", "credit", "credit_asym"][n2 % 6]      # (own counters: j and the
+            n2 += 1                                                                                            # dimension cycle are not coprime)
         else:
-            ctor = ["fixed", "geometric", "geometric_bounds", "credit"][j % 4]
+            ctor = ["fixed", "geometric", "geometric_bounds", "credit"][n3 % 4]
+            n3 += 1
         g = G.gen_grid_spec(rng, ctor, dim)
         if ctor == "fixed":
             g["n"] = int(rng.integers(5, 12 if dim == 2 else 8))
@@ -83,6 +86,16 @@ def gen_cases(tier, seed):
             g["n_side"] = int(rng.integers(2, 6 if dim == 2 else 4))
         cases.append({"model": cm, "grid": g, "level": int(rng.integers(0, 2)) if dim == 2 else 0,
                       "methods": ["INVERSION"] + (["BINARYSEARCHTREEADAPTED"] if j % 2 == 0 or thorough else [])})
+        if dim == 2 and ctor in ("fixed", "geometric_bounds"):
+            # a second model of the same families on the very same (model-independent) grid, in the same process: rates must be
+            # those of the second model (state shared between model instances, e.g. a cache keyed by the abscissa only)
+            cm2 = W.gen_copula_model_spec(rng, dim=dim, kind=kind, families=fams)
+            W.limit_variation(rng, cm2, allow_infinite=False)
+            for ms in cm2["margins"]:
+                if ms["family"] == "MERTON":
+                    ms["params"]["mu_j"] = min(ms["params"]["mu_j"], 0.05)
+                    ms["params"]["sigma_j"] = max(ms["params"]["sigma_j"], 0.08)
+            cases[-1]["then"] = cm2
     return cases
 
 
@@ -98,6 +111,9 @@ def run_case(case, R, ctx):
     try:
         if "margins" in mspec:
             _run_nd(case, R)
+            if case.get("then"):
+                R.hit("second_model_on_the_same_grid")
+                _run_nd(dict(case, model=case["then"]), R)
         else:
             _run_1d(case, R)
     finally:
